@@ -22,91 +22,153 @@ from ..thir import callee_of
 from ..facts import norm_path
 
 WT = "frontend::worker_tree::WorkerTree"
+PUBLIC_NOTIFIERS = ("source_changed", "add_source", "remove_source")   # public API of the watcher: stable names
 
 
-def hash_rule(R, ctx):
+class Roles:
+    """Private items of WorkerTree found by what they are (types) and what they do, never by name."""
+    def __init__(self, ctx):
+        lib = ctx.lib
+        self.ctx = ctx
+        a = lib.adts.get(WT)
+        self.fields = {}
+        for f in (a["variants"][0]["fields"] if a else []):
+            t = f.get("tys", "")
+            is_map = any(m in t.split("<")[0] for m in ("HashMap", "BTreeMap", "IndexMap"))
+            if is_map and ("Set<" in t) and "NodeIndex" in t:
+                self.fields["extmap"] = f["name"]
+            elif is_map and t.rstrip(">").endswith("NodeIndex") and "Set<" not in t:
+                self.fields["node_map"] = f["name"]
+            elif t == "core::option::Option<u64>":
+                self.fields["last_hash"] = f["name"]
+            elif "StableGraph" in t or "Graph<" in t:
+                self.fields["graph"] = f["name"]
+        self.methods = [f for f in lib.fn_list if f.get("self_tys", "").startswith(WT) and thir.body_of(f)]
+        self.fa = {f["path"]: ctx.an.fa(f["path"]) for f in self.methods}
+        # classify the operations every method performs on the external-dependency map / its inner sets
+        self.map_ops, self.set_ops = {}, {}
+        ext = self.fields.get("extmap")
+        for f in self.methods:
+            fa = self.fa[f["path"]]
+            for c in thir.calls(f):
+                if not c["args"] or callee_of(c) in lib.fns:
+                    continue
+                recv = c["args"][0]
+                ts = lib.ty_str(lib.strip_refs(recv["t"]))
+                o = {x for x in fa.origins(recv) if x[0] != "#param"}
+                if (WT, ext) in o and "Map<" in ts and "Set<" in ts:
+                    self.map_ops.setdefault(f["path"], []).append(c)
+                elif (WT, ext) in o and "Set<" in ts.split("<")[0] + "<":
+                    self.set_ops.setdefault(f["path"], []).append(c)
+        self.unlinkers = {p for p, cs in self.set_ops.items() if any(c.get("fname") in ("remove", "retain", "take", "swap_remove", "shift_remove") for c in cs)}
+        # functions that look the map up and restart what they find (transitively call an unlinker)
+        self.calls_unlinker = set(self.unlinkers)
+        changed = True
+        while changed:
+            changed = False
+            for f in self.methods:
+                if f["path"] in self.calls_unlinker:
+                    continue
+                if any((lib.fn(callee_of(c) or "") or {}).get("path") in self.calls_unlinker for c in thir.calls(f)):
+                    self.calls_unlinker.add(f["path"])
+                    changed = True
+        self.ext_readers = {p for p, cs in self.map_ops.items() if any(c.get("fname") in ("get", "get_mut", "iter", "iter_mut", "values", "contains_key") for c in cs)} & self.calls_unlinker
+        # the cleaner: hands paths to Resources::remove; the deletion queue is where those paths come from
+        self.cleaners, self.queue = [], set()
+        for f in self.methods:
+            fa = self.fa[f["path"]]
+            for c in thir.calls(f):
+                if c.get("fname") == "remove" and "Resources" in (c.get("fn") or "") + (callee_of(c) or ""):
+                    self.cleaners.append(f)
+                    for a_ in c["args"][1:]:
+                        self.queue |= {o[1] for o in fa.origins(a_) if o[0] == WT}
+        self.queue -= set(self.fields.values())
+
+    def method(self, name):
+        return self.ctx.lib.fn("%s::%s" % (WT, name))
+
+
+def hash_rule(R, ctx, roles):
     rid = "C10.hash"
     lib = ctx.lib
-    R.rule(rid, "WorkerTree::process calls has_configuration_changed on every path before the first advance_work, reset() is reachable "
-                "only through its true edge, and the fingerprint hashes serde_json::to_vec(config) of the Configuration")
-    fn = lib.fn(WT + "::process")
+    R.rule(rid, "WorkerTree::process (private helpers found by role, not by name): the configuration of this pass is serialised with serde_json "
+                "and hashed; that computation precedes every advance_work on every path, the stored fingerprint is replaced on every pass, and "
+                "reset() is called after it and only conditionally (on the `changed` outcome)")
+    fn = roles.method("process")
     if not R.require(rid, "anchor:process", fn is not None and fn.get("mir"), "", "not found"):
         return
+    ser = lambda c: c.get("fname") in ("to_vec", "to_string", "to_writer", "to_value") and "serde_json" in (c.get("fn") or "")
+    CONFIG = "frontend::configuration::Configuration"
+    hits = [(f, c, 0) for f, c in interproc.scope_calls(lib, fn) if ser(c) and c["args"] and lib.ty_str(lib.strip_refs(c["args"][0]["t"])) == CONFIG]
+    R.ob(rid, "fingerprint|whole-configuration", bool(hits), ctx.where(fn), "the configuration reaching process() is serialised as a whole with serde_json: %s" % bool(hits))
+    if not hits:
+        return
+    fp_fns = {f["path"] for f, c, i in hits}
+    sc = [(f, c) for f in [lib.fns[p] for p in fp_fns] for c in thir.calls(f)]
+    hx = [c for f, c in sc if "xxh" in (c.get("fname") or "") or "hash" in (c.get("fname") or "")]
+    R.ob(rid, "fingerprint|hashed", bool(hx), ctx.where(fn), "hash function applied to the serialised configuration")
+    lh = roles.fields.get("last_hash")
+    stores = []
+    for p in fp_fns | {fn["path"]}:
+        f = lib.fns[p]
+        fa = ctx.an.fa(p)
+        for c in thir.calls(f):
+            if c.get("fname") in ("replace", "insert") and c["args"] and (WT, lh) in fa.origins(c["args"][0]):
+                stores.append(c)
+        for n in thir.walk(thir.body_of(f)):
+            if n.get("k") == "Assign" and (WT, lh) in fa.origins(n["l"]):
+                stores.append(n)
+    R.ob(rid, "fingerprint|stored", bool(stores) and lh is not None, ctx.where(fn), "the new fingerprint replaces the stored one on every pass (Option::replace / assignment to the Option<u64> field): %s" % bool(stores))
     cfg = mir.Cfg(lib, fn)
-    chk = [i for i, t in cfg.calls() if t.get("fname") == "has_configuration_changed"]
+    # fingerprint points of process' own MIR: the serde call itself, or the call of a helper that contains it
+    fpb = [i for i, t in cfg.calls() if ser({"fname": t.get("fname"), "fn": (cfg.callee(t) or "") + (t.get("fn") or "")}) or (lib.fn(cfg.callee(t) or "") or {}).get("path") in (fp_fns - {fn["path"]})]
     adv = [i for i, t in cfg.calls() if t.get("fname") == "advance_work"]
     rst = [i for i, t in cfg.calls() if t.get("fname") == "reset" and WT in (cfg.callee(t) or "")]
-    R.require(rid, "anchor:calls", bool(chk) and bool(adv) and bool(rst), ctx.where(fn), "has_configuration_changed/advance_work/reset calls: %d/%d/%d" % (len(chk), len(adv), len(rst)))
-    for a in adv:
-        R.ob(rid, "process|hash-before-work", cfg.must_pass(chk, a), ctx.where(fn, cfg.line(a)), "configuration fingerprint compared before any work")
-    for c in chk:
-        nxt = cfg.blocks[c]["term"].get("t")
-        sw = cfg.blocks[nxt]["term"]
-        if sw["k"] == "switch":
-            true_t = sw["otherwise"]
-            reg = cfg.edge_region(nxt, true_t)
-            for r in rst:
-                R.ob(rid, "process|reset-on-change", r in reg, ctx.where(fn, cfg.line(r)), "reset() lies on the `changed` edge: %s" % (r in reg))
-        else:
-            R.ob(rid, "process|reset-on-change", False, ctx.where(fn), "result of has_configuration_changed not branched on")
-    h = lib.fn(WT + "::has_configuration_changed")
-    if R.require(rid, "anchor:has_configuration_changed", h is not None, "", "not found"):
-        # the configuration is parameter #1; helpers that receive it are followed
-        ser = lambda c: c.get("fname") in ("to_vec", "to_string", "to_writer", "to_value") and "serde_json" in (c.get("fn") or "")
-        tv = list(interproc.tainted_calls(ctx, h, {1}, ser))
-        ok = bool(tv)
-        R.ob(rid, "fingerprint|whole-configuration", ok, ctx.where(h), "hash input = serde_json serialisation of the whole `config` argument: %s" % ok)
-        sc = list(interproc.scope_calls(lib, h))
-        hx = [c for f, c in sc if "xxh" in (c.get("fname") or "") or "hash" in (c.get("fname") or "")]
-        R.ob(rid, "fingerprint|hashed", bool(hx), ctx.where(h), "hash function applied")
-        fa = ctx.an.fa(h["path"])
-        rep = [c for c in thir.calls(h) if c.get("fname") in ("replace", "insert", "get_or_insert", "get_or_insert_with") and c["args"]
-               and any(o[0] == WT for o in fa.origins(c["args"][0]))]
-        asg = [n for n in thir.walk(thir.body_of(h)) if n.get("k") == "Assign" and any(o[0] == WT for o in fa.origins(n["l"]))]
-        stores_always = [c for c in rep if c.get("fname") in ("replace", "insert")] or asg
-        R.ob(rid, "fingerprint|stored", bool(stores_always), ctx.where(h), "the new fingerprint replaces the stored one on every pass (Option::replace / assignment): %s" % bool(stores_always))
+    R.require(rid, "anchor:calls", bool(fpb) and bool(adv) and bool(rst), ctx.where(fn), "fingerprint/advance_work/reset points in process: %d/%d/%d" % (len(fpb), len(adv), len(rst)))
+    for a_ in adv:
+        R.ob(rid, "process|hash-before-work", cfg.must_pass(fpb, a_), ctx.where(fn, cfg.line(a_)), "configuration fingerprint computed before any work")
+    for r in rst:
+        after = cfg.must_pass(fpb, r)
+        conditional = any(a_ in cfg.reachable_from(0, avoid={r}) for a_ in adv)
+        R.ob(rid, "process|reset-on-change", after and conditional, ctx.where(fn, cfg.line(r)),
+             "reset() follows the fingerprint comparison (%s) and is not unconditional (%s)" % (after, conditional))
 
 
-def notify(R, ctx):
+def notify(R, ctx, roles):
     rid = "C10.notify"
     lib = ctx.lib
-    R.rule(rid, "source_changed, add_source and remove_source reach every return through update_external_dependencies; each arm of "
-                "remove_source that drops a node pushes its output onto remove_files under `!is_in_place()`")
-    for name in ("source_changed", "add_source", "remove_source"):
-        fn = lib.fn("%s::%s" % (WT, name))
+    R.rule(rid, "source_changed, add_source and remove_source reach every return through a function that looks the changed path up in the "
+                "external-dependency map and restarts the dependents; each arm of remove_source that drops a node queues its output for the "
+                "cleaner unless the item is processed in place")
+    readers = roles.ext_readers
+    R.require(rid, "anchor:dependency-lookup", len(readers) >= 1, "", "functions that look up the external-dependency map and restart dependents: %s" % sorted(x.split("::")[-1] for x in readers))
+    for name in PUBLIC_NOTIFIERS:
+        fn = roles.method(name)
         if not R.require(rid, "anchor:" + name, fn is not None and fn.get("mir"), "", "not found"):
             continue
         cfg = mir.Cfg(lib, fn)
-        upd = [i for i, t in cfg.calls() if t.get("fname") == "update_external_dependencies"]
+        upd = [i for i, t in cfg.calls() if (lib.fn(cfg.callee(t) or "") or {}).get("path") in readers]
+        if fn["path"] in readers:
+            upd = upd or [0]
         ok = bool(upd) and all(cfg.must_pass(upd, r) for r in cfg.returns())
-        R.ob(rid, "%s|updates-dependents" % name, ok, ctx.where(fn), "every return passes update_external_dependencies: %s" % ok)
-    fn = lib.fn(WT + "::remove_source")
-    cf = lib.fn(WT + "::clean_files")
-    if fn is not None and R.require(rid, "anchor:clean_files", cf is not None, "", "clean_files not found"):
-        # the deletion queue = the WorkerTree field whose elements clean_files hands to Resources::remove
-        cfa = ctx.an.fa(cf["path"])
-        queue = set()
-        for c in thir.calls(cf):
-            if c.get("fname") == "remove" and "Resources" in (c.get("fn") or "") + (callee_of(c) or ""):
-                for a_ in c["args"][1:]:
-                    queue |= {o[1] for o in cfa.origins(a_) if o[0] == WT}
-        if not R.require(rid, "anchor:deletion-queue", len(queue) >= 1, ctx.where(cf), "field(s) drained into Resources::remove: %s" % sorted(queue)):
-            return
+        R.ob(rid, "%s|updates-dependents" % name, ok, ctx.where(fn), "every return passes the dependency lookup: %s" % ok)
+    fn = roles.method("remove_source")
+    if fn is not None and R.require(rid, "anchor:cleaner", len(roles.cleaners) >= 1 and len(roles.queue) >= 1, "", "cleaner %s drains %s" % ([f["path"].split("::")[-1] for f in roles.cleaners], sorted(roles.queue))):
         a = ctx.an.fa(fn["path"])
         M = guards.Mentions(ctx.an)
         removes = [c for c in thir.calls(fn) if c.get("fname") == "remove_node"]
         R.require(rid, "remove_source|anchor:remove_node", len(removes) >= 1, ctx.where(fn), "%d remove_node calls" % len(removes))
         pushes = [c for c in thir.calls(fn) if c.get("fname") in ("push", "extend", "insert", "push_back", "append") and c["args"]
-                  and any(o[0] == WT and o[1] in queue for o in a.origins(c["args"][0]))]
+                  and any(o[0] == WT and o[1] in roles.queue for o in a.origins(c["args"][0]))]
         R.ob(rid, "remove_source|queues-output-in-each-arm", len(pushes) >= len(removes) and len(pushes) >= 1, ctx.where(fn),
-             "%d pushes onto the deletion queue %s for %d node removals" % (len(pushes), sorted(queue), len(removes)))
+             "%d pushes onto the deletion queue %s for %d node removals" % (len(pushes), sorted(roles.queue), len(removes)))
         inplace = guards.is_call_named("is_in_place")
-        for i, c in enumerate(pushes):
+        for c in pushes:
             guarded = M.guarded(a, c, inplace) or any(M.mentions(a, x, inplace) for x in c["args"][1:])
             R.ob(rid, "remove_source|queue-unless-in-place", guarded, ctx.where(fn, c.get("ln")), "queued output depends on is_in_place(): %s" % guarded)
 
 
-def clean(R, ctx):
+def clean(R, ctx, roles):
     rid = "C10.clean"
     lib = ctx.lib
     R.rule(rid, "in WorkerTree::process every non-error return is preceded by clean_files (deletions queued by remove_source are executed by "
@@ -115,8 +177,9 @@ def clean(R, ctx):
     if not R.require(rid, "anchor:process", fn is not None and fn.get("mir"), "", "not found"):
         return
     cfg = mir.Cfg(lib, fn)
-    cl = [i for i, t in cfg.calls() if t.get("fname") == "clean_files"]
-    R.require(rid, "anchor:clean_files", bool(cl), ctx.where(fn), "no clean_files call")
+    cleaner_paths = {f["path"] for f in roles.cleaners}
+    cl = [i for i, t in cfg.calls() if (lib.fn(cfg.callee(t) or "") or {}).get("path") in cleaner_paths]
+    R.require(rid, "anchor:clean_files", bool(cl), ctx.where(fn), "no call of the cleaner (the function that hands queued paths to Resources::remove)")
     succ = cfg.without_error_edges()
     reach = cfg.reachable_from(0, avoid=set(cl), edges=succ)
     # explicit `return Err(..)` (cyclic work) is also an error exit: exclude returns only reachable through an Err aggregate
@@ -132,16 +195,16 @@ def clean(R, ctx):
          "a successful return can be reached without clean_files (e.g. the early return when nothing is left to do)" if bad else "every success return passes clean_files")
 
 
-def unlink(R, ctx):
+def unlink(R, ctx, roles):
     rid = "C10.unlink"
     lib = ctx.lib
-    R.rule(rid, "every StableGraph::remove_node(x) in WorkerTree is dominated by restart_work(x) on the same node variable (restart_work removes "
-                "x from external_dependencies); otherwise a later change of a file x had read restarts a dead index and panics")
+    R.rule(rid, "every StableGraph::remove_node(x) in WorkerTree is preceded, in an enclosing block, by a call on the same node variable of a "
+                "function that removes node indexes from the inner sets of the external-dependency map (the unlinker, found by role); "
+                "otherwise a later change of a file x had read restarts a dead index and panics")
+    R.require(rid, "anchor:unlinker", len(roles.unlinkers) >= 1, "", "functions removing indexes from the inner sets: %s" % sorted(x.split("::")[-1] for x in roles.unlinkers))
     n = 0
-    for f in lib.fn_list:
-        if not f.get("self_tys", "").startswith(WT) or not thir.body_of(f):
-            continue
-        a = ctx.an.fa(f["path"])
+    for f in roles.methods:
+        a = roles.fa[f["path"]]
         order = [id(x) for x in thir.walk(thir.body_of(f))]
         for c in thir.calls(f):
             if c.get("fname") != "remove_node":
@@ -150,55 +213,53 @@ def unlink(R, ctx):
             vars_ = {x["var"] for x in thir.walk(c["args"][1]) if x.get("k") == "Var"}
             ok = False
             for r in thir.calls(f):
-                if r.get("fname") == "restart_work" and order.index(id(r)) < order.index(id(c)):
+                q = lib.fn(callee_of(r) or "")
+                if q is not None and q["path"] in roles.calls_unlinker and order.index(id(r)) < order.index(id(c)) and len(r["args"]) > 1:
                     rv = {x["var"] for x in thir.walk(r["args"][1]) if x.get("k") == "Var"}
                     if rv & vars_:
-                        # same lexical scope: the restart's enclosing block encloses the removal
                         pr = a.parent.get(id(r))
                         while pr is not None and pr.get("k") != "Block":
                             pr = a.parent.get(id(pr))
                         if pr is not None and any(y is c for y in thir.walk(pr)):
                             ok = True
             R.ob(rid, "%s|remove_node-after-restart_work" % norm_path(f["path"]).split("::")[-1] + "@%d" % n, ok, ctx.where(f, c.get("ln")),
-                 "remove_node(x) %s by restart_work(x)" % ("preceded" if ok else "NOT preceded: x stays in external_dependencies"))
-    R.require(rid, "floor:remove_node", n >= 2, "", "%d remove_node calls" % n)
+                 "remove_node(x) %s by the unlinker on x" % ("preceded" if ok else "NOT preceded: x stays in the external-dependency map"))
+    R.require(rid, "floor:remove_node", n >= 1, "", "%d remove_node calls" % n)
 
 
-def links(R, ctx):
+def links(R, ctx, roles):
     rid = "C10.links"
     lib = ctx.lib
-    R.rule(rid, "the map external_dependencies is only grown with entry().or_default() in process and cleared in reset; restart_work removes "
-                "single node indexes from the inner sets (no function removes a whole path entry: other dependents' links would be lost)")
-    allowed = {
-        ("process", "entry"): "links an item to a file it read",
-        ("reset", "clear"): "configuration changed: everything restarts",
-        ("restart_work", "get_mut"): "access to the inner set",
-        ("update_external_dependencies", "get"): "lookup",
-        ("iter_external_dependencies", "iter"): "read-only",
-    }
-    seen = set()
-    for f in lib.fn_list:
-        if not f.get("self_tys", "").startswith(WT) or not thir.body_of(f):
-            continue
-        a = ctx.an.fa(f["path"])
-        short = norm_path(f["path"]).split("::")[-1]
-        for c in thir.calls(f):
-            if not c["args"] or callee_of(c) in lib.fns:
-                continue
-            recv = c["args"][0]
-            ts = lib.ty_str(lib.strip_refs(recv["t"]))
-            o = {x for x in a.origins(recv) if x[0] != "#param"}
-            if (WT, "external_dependencies") in o and "HashMap" in ts and "HashSet" in ts:
-                key = (short, c.get("fname"))
-                seen.add(key)
-                R.ob(rid, "map|%s|%s" % key, key in allowed, ctx.where(f, c.get("ln")),
-                     allowed.get(key, "unreviewed operation `%s` on the external_dependencies map in %s" % (c.get("fname"), short)))
-            elif any(x[1] == "external_dependencies" for x in o) and ts.startswith("std::collections::hash::set::HashSet"):
-                if c.get("fname") in ("insert", "remove", "contains", "is_empty", "iter"):
-                    ok = not (c["fname"] == "remove" and short != "restart_work") and not (c["fname"] == "insert" and short != "process")
-                    R.ob(rid, "set|%s|%s" % (short, c["fname"]), ok, ctx.where(f, c.get("ln")), "inner-set operation")
-    for key in (("process", "entry"), ("reset", "clear")):
-        R.require(rid, "map|exists|%s|%s" % key, key in seen, "", "reviewed operation no longer present")
+    R.rule(rid, "who may shrink the external-dependency map (policy by operation, whatever the functions are called): entries are added with "
+                "entry()/insert, looked up with get/iter; the whole map is cleared only by a function that also restarts every work item; no "
+                "function removes or retains whole path entries (other dependents' links would be lost); node indexes are inserted into / "
+                "removed from the inner sets one at a time")
+    READ = {"get", "get_mut", "iter", "iter_mut", "keys", "values", "values_mut", "contains_key", "len", "is_empty"}
+    GROW = {"entry", "insert", "extend"}
+    n = 0
+    for p, cs in sorted(roles.map_ops.items()):
+        f = lib.fns[p]
+        short = norm_path(p).split("::")[-1]
+        for c in cs:
+            op = c.get("fname")
+            n += 1
+            if op in READ or op in GROW:
+                ok, why = True, "lookup / growth"
+            elif op == "clear":
+                resets_all = any(x.get("fname") in ("node_weights_mut", "node_indices", "node_weights") for x in thir.calls(f))
+                ok, why = resets_all, "cleared together with a restart of every work item" if resets_all else "the map is cleared but the work items are not all restarted"
+            else:
+                ok, why = False, "operation `%s` drops whole path entries of the external-dependency map: links of other dependents are lost" % op
+            R.ob(rid, "map|%s" % op if ok else "map|%s|%s" % (short, op), ok, ctx.where(f, c.get("ln")), why, nontrivial=not ok or op == "clear")
+    for p, cs in sorted(roles.set_ops.items()):
+        f = lib.fns[p]
+        for c in cs:
+            op = c.get("fname")
+            ok = op in ("insert", "remove", "contains", "is_empty", "iter", "len", "copied", "cloned")
+            R.ob(rid, "set|%s" % op, ok, ctx.where(f, c.get("ln")), "inner-set operation" if ok else "inner set is changed wholesale with `%s`" % op, nontrivial=not ok)
+    R.require(rid, "floor:map-operations", n >= 3, "", "%d operations on the external-dependency map" % n)
+    grows = any(c.get("fname") in GROW for cs in roles.map_ops.values() for c in cs)
+    R.require(rid, "map|exists|grow", grows, "", "the map is filled somewhere")
 
 
 def deps(R, ctx):
@@ -232,9 +293,13 @@ def run(R, ctx):
         "removal, who-may-shrink the dependency map, dependencies recorded on failure too. Histories themselves are not explored."
     )
     R.assumptions += ["the fingerprint is only as fine as Configuration's Serialize output: see C19.keys / C19.filters"]
-    hash_rule(R, ctx)
-    notify(R, ctx)
-    clean(R, ctx)
-    unlink(R, ctx)
-    links(R, ctx)
+    roles = Roles(ctx)
+    need = {"extmap", "last_hash", "graph"}
+    if not R.require("C10.hash", "anchor:roles", need <= set(roles.fields), ctx.adt_where(WT) if WT in ctx.lib.adts else "", "WorkerTree fields by type: %s" % roles.fields):
+        return
+    hash_rule(R, ctx, roles)
+    notify(R, ctx, roles)
+    clean(R, ctx, roles)
+    unlink(R, ctx, roles)
+    links(R, ctx, roles)
     deps(R, ctx)
